@@ -401,12 +401,33 @@ def _stored_condvar(ctx, fn, e):
     return walk(e)
 
 
+def _condvar_field(ctx, e):
+    """(struct, field) when the condition variable expression is a named field of an in-crate struct (through Arc / clone), else None."""
+    from .facts import ty_head
+    x = e
+    for _ in range(20):
+        if not isinstance(x, tuple):
+            return None
+        if x[0] == 'field':
+            if ty_head(x[3]) in ctx.F.adts:
+                return (ty_head(x[3]), x[2])
+            x = x[1]
+        elif x[0] in ('downcast', 'index'):
+            x = x[1]
+        elif x[0] == 'call' and x[2]:
+            x = x[2][0]
+        else:
+            return None
+    return None
+
+
 def cv(ctx):
     """Condition variables: a notifier that can reach a waiter changes the waiter's condition under the waiter's mutex before notifying;
     the waiter re-tests in a loop."""
     F = ctx.F
     out = []
     waits = []
+    wait_fields = set()
     for fn in F.crate_fns():
         H = None
         for bb, t in fn.calls():
@@ -418,6 +439,7 @@ def cv(ctx):
                     if a['k'] == 'move' and a['pl']['l'] in gl:
                         cls = gl[a['pl']['l']]
                 waits.append((fn, bb, cls))
+                wait_fields.add(_condvar_field(ctx, fn.expr_of_operand(t['args'][0])))
     wait_classes = sorted(set(c for _, _, c in waits if c))
     for fn, bb, cls in waits:
         key = '%s|wait:%s' % (short(fn.name), cls)
@@ -443,6 +465,10 @@ def cv(ctx):
             root = expr_root(e)
             key = '%s|%s' % (short(fn.name), name.split('::')[-1])
             stored = _stored_condvar(ctx, fn, e)
+            cf = _condvar_field(ctx, e)
+            if stored and cf is not None and cf not in wait_fields and None not in wait_fields:
+                out.append(ok('CV1', key, 'the condition variable is the field %s.%s, which no function of the crate ever waits on: no waiter to lose a wake-up' % (short(cf[0]), cf[1]), loc=fn.loc(bb), fn=fn.name))
+                continue
             if not stored:
                 # upvar / local: look at the creating function for a waiter
                 rootfn = F.fn(fn.root) if fn.root else fn
